@@ -53,6 +53,11 @@ fn option_closure_forms() {
     macro_rules! tick { ($c:ident, $e:expr) => {{ $c.set($c.get() + 1); $e }}; }
 
     assert!(option::unwrap_or!(o, d) == o.unwrap_or(d));
+    // value arguments are evaluated exactly once whatever the receiver is (std: argument of a method call)
+    assert!(option::unwrap_or!(o, tick!(calls, d ^ m)) == o.unwrap_or(tick!(scalls, d ^ m)));
+    assert!(calls.get() == scalls.get(), "unwrap_or!: default expression evaluated a different number of times than std");
+    assert!(option::ok_or!(o, tick!(calls, d ^ m)) == o.ok_or(tick!(scalls, d ^ m)));
+    assert!(calls.get() == scalls.get(), "ok_or!: error expression evaluated a different number of times than std");
     assert!(option::unwrap_or_else!(o, || tick!(calls, d ^ m)) == o.unwrap_or_else(|| tick!(scalls, d ^ m)));
     assert!(calls.get() == scalls.get());
     assert!(option::ok_or!(o, d) == o.ok_or(d));
@@ -73,8 +78,8 @@ fn option_closure_forms() {
     let v: u8 = kani::any();
     let oref: Option<&u8> = if kani::any() { Some(&v) } else { None };
     assert!(option::copied(oref) == oref.copied());
-    must_reach!(o.is_none() && calls.get() == 3, "None: the three fallback closures ran");
-    must_reach!(o.is_some() && calls.get() == 3, "Some: the three mapping closures ran");
+    must_reach!(o.is_none() && calls.get() == 5, "None: the two value arguments and the three fallback closures ran");
+    must_reach!(o.is_some() && calls.get() == 5, "Some: the two value arguments and the three mapping closures ran");
 }
 
 fn option_fn_path_forms() {
@@ -109,6 +114,8 @@ fn result_closure_forms() {
     macro_rules! tick { ($c:ident, $e:expr) => {{ $c.set($c.get() + 1); $e }}; }
 
     assert!(result::unwrap_or!(r, d) == r.unwrap_or(d));
+    assert!(result::unwrap_or!(r, tick!(calls, d ^ m)) == r.unwrap_or(tick!(scalls, d ^ m)));
+    assert!(calls.get() == scalls.get(), "result::unwrap_or!: default expression evaluated a different number of times than std");
     assert!(result::unwrap_or_else!(r, |e| tick!(calls, e ^ m)) == r.unwrap_or_else(|e| tick!(scalls, e ^ m)));
     assert!(calls.get() == scalls.get());
     let std_ueoe = match r { Ok(x) => { scalls.set(scalls.get() + 1); x ^ m } Err(e) => e };
@@ -126,8 +133,8 @@ fn result_closure_forms() {
     assert!(result::or_else!(r, |e| tick!(calls, if e & m != 0 { Ok::<u8, u8>(e ^ d) } else { Err(e) }))
         == r.or_else(|e| tick!(scalls, if e & m != 0 { Ok::<u8, u8>(e ^ d) } else { Err(e) })));
     assert!(calls.get() == scalls.get());
-    must_reach!(r.is_ok() && calls.get() == 3, "Ok: three closures ran");
-    must_reach!(r.is_err() && calls.get() == 3, "Err: three closures ran");
+    must_reach!(r.is_ok() && calls.get() == 4, "Ok: the value argument and three closures ran");
+    must_reach!(r.is_err() && calls.get() == 4, "Err: the value argument and three closures ran");
 }
 
 fn result_fn_path_forms() {
